@@ -229,7 +229,9 @@ class Queue(Greenlet):
         self.relay = relay
         self.backoff = backoff or self._default_backoff
         self.bounce_factory = bounce_factory or Bounce
-        self.bounce_queue = bounce_queue or self
+        # Not 'bounce_queue or self': a Queue is a greenlet, which is falsy
+        # until it has been started (and again once it has finished).
+        self.bounce_queue = bounce_queue if bounce_queue is not None else self
         self.wake = Event()
         self.queued = []
         self.active_ids = set()
